@@ -19,7 +19,7 @@ CLASSES = {
     'generators': {'quick': 2400, 'thorough': 24000},
 }
 MIN_EVENTS = {'quick': {'assert:ens': 1000, 'assert:gen': 600, 'members': 400}}
-CASE_TIMEOUT = 60
+CASE_TIMEOUT = 180
 
 
 def run_ensemble(rng, obs):
